@@ -32,7 +32,7 @@ ASSUMPTIONS = ["per-edge border model of the emitter's documentation: an interio
                "to its right, the rightmost edge is the last column's border_right",
                "cells are located by their r<i>c<j> tags"]
 
-CFG = gen.Cfg(max_cols=6, max_rows=40, nrow_range=(2, 30), allow_group_by=False, attrs=False, dividers=False, long_text=0.0,
+CFG = gen.Cfg(max_cols=6, max_rows=40, nrow_range=(2, 30), allow_group_by=True, group_by_p=2, attrs=False, dividers=False, long_text=0.0,
               coord_tags=True, dtypes=("str",), nulls=False, components=False, page_geometry=False, page_borders=False,
               header_modes=("default", "none"), max_page_by=3, half_points=True, subline_return=0.4)
 COORD = re.compile(r"^r(\d+)c(\d+)")
